@@ -3,6 +3,7 @@ import PycsepVerif.Soft64
 import PycsepVerif.Model.Region
 import PycsepVerif.Model.RegionBuild
 import PycsepVerif.Model.RegionOps
+import PycsepVerif.Model.ReprDecimals
 import PycsepVerif.RealOps
 /-!
   Driver ops of property C01.
@@ -32,6 +33,15 @@ import PycsepVerif.RealOps
      hash      per polygon `idx:idy` of `bin1d_vec(midpoints, xs / ys)`
      mask      rows `;`-separated, one character 0/1 per column;   idxmap   rows `;`-separated, entries index or `n`
      bbox      `get_bbox()` four rationals;   loc   polygon numbers or `IndexError`
+
+     round 4: `decx decy decdh` = `auto auto auto` → the three `num_decimals` are computed by the model (Model/ReprDecimals.lean,
+     from `DecimalText.reprValue`); dh = `none:auto` → the two repr values of `from_origins` without dh are computed by the model too.
+     The harness sends only these forms now; the numeric forms remain for replays of older corpus cases.
+
+  `c01_lookup <oxs> <oys> <dh | none:auto> <flags> <lons> <lats>` → `<xs> <ys> <allowed>`   END TO END: the region is built by the model from
+     the origins alone (`ReprDec.fromOriginsAuto`), then every point gets the set of answers the property allows on THAT region
+
+  `c01_global <dh>` → `<lons> <lats> <xs> <ys>`   global_region(dh): the coordinates `itertools.product` is taken of, and the edge arrays
 
   `c01_masked <oxs> <oys> <dh> <contains> <decx> <decy> <decdh>`   masked_region (Model/RegionOps.lean `maskedRegionF`)
      oxs oys     origins of the OLD region's polygons (polygons = compute_vertex(origin, dh, eps)); contains = 0/1 per polygon
@@ -90,20 +100,24 @@ def parseFlags? (s : String) : Option (Option (List Bool)) :=
   if s = "none" then some none else (parseList? parseNat? s).map (fun l => some (l.map (· == 1)))
 
 def parseDh? (s : String) : Option (Rat ⊕ (List Rat)) :=
-  if s.startsWith "none:" then
+  if s == "none:auto" then some (.inr [])
+  else if s.startsWith "none:" then
     match parseList? parseRat? (s.drop 5).toString with
     | some l => if l.length = 4 then some (.inr l) else none
     | none => none
   else (parseRat? s).map .inl
 
-def build (oxs oys : List Rat) (dh : Rat ⊕ (List Rat)) (flags : Option (List Bool)) (dec : Nat × Nat × Nat) (arrays : Bool)
+def build (oxs oys : List Rat) (dh : Rat ⊕ (List Rat)) (flags : Option (List Bool)) (dec : Option (Nat × Nat × Nat)) (arrays : Bool)
     (loc : List Int) : String :=
   let origins := oxs.zip oys
   let dhv := match dh with
     | .inl d => d
+    | .inr [] => ReprDec.inferDhAuto origins      -- `none:auto`: the repr values are computed by the model
     | .inr r => inferDh (r.getD 0 0, r.getD 1 0) (r.getD 2 0, r.getD 3 0)
   let tol := Soft64.eps64
-  let b := fromOrigins origins dhv flags dec
+  let b := match dec with
+    | some dec => fromOrigins origins dhv flags dec
+    | none => ReprDec.fromOriginsAuto origins dhv flags
   let ux := origins.map (fun o => upperF o.1 dhv tol)
   let uy := origins.map (fun o => upperF o.2 dhv tol)
   let R := b.region
@@ -130,9 +144,11 @@ def showStats (o : Option Stats) : String :=
   | none => "-"
   | some s => ",".intercalate [showOR s.minLon, showOR s.maxLon, showOR s.minLat, showOR s.maxLat]
 
-def masked (oxs oys : List Rat) (dh : Rat) (contains : List Bool) (dec : Nat × Nat × Nat) : String :=
+def masked (oxs oys : List Rat) (dh : Rat) (contains : List Bool) (dec : Option (Nat × Nat × Nat)) : String :=
   let polys := (oxs.zip oys).map (fun o => computeVertex o dh Soft64.eps64)
-  let b := maskedRegionF polys dh contains dec
+  let b := match dec with
+    | some dec => maskedRegionF polys dh contains dec
+    | none => ReprDec.maskedRegionAuto polys dh contains
   " ".intercalate [showList showRat b.xs, showList showRat b.ys, showList (fun h => s!"{h.1}:{h.2}") b.hash,
     showList toString (keptIdx contains)]
 
@@ -171,18 +187,54 @@ def piF : Float := 3.141592653589793
 def area (ox oy : List Float) (dh : Float) : String :=
   showList showFloat (cellAreas (α := Float) piF Float.cos (fun a b => a == b) (ox.zip oy) dh)
 
+/-- the three decimals: numbers (supplied), or `auto auto auto` = computed by the model (Model/ReprDecimals.lean) -/
+def parseDecs? (a b c : String) : Option (Option (Nat × Nat × Nat)) :=
+  if a == "auto" && b == "auto" && c == "auto" then some none
+  else match a.toNat?, b.toNat?, c.toNat? with
+    | some x, some y, some z => some (some (x, y, z))
+    | _, _, _ => none
+
 def handle : List String → Option String
   | ["c01_build", oxs, oys, dh, fl, decx, decy, decdh, arrays, loc] => some (
       match parseList? parseRat? oxs, parseList? parseRat? oys, parseDh? dh,
-            parseFlags? fl, decx.toNat?, decy.toNat?, decdh.toNat?, parseList? parseInt? loc with
-      | some oxs, some oys, some dh, some fl, some dx, some dy, some dd, some loc =>
-        build oxs oys dh fl (dx, dy, dd) (arrays == "1") loc
-      | _, _, _, _, _, _, _, _ => "bad-op")
+            parseFlags? fl, parseDecs? decx decy decdh, parseList? parseInt? loc with
+      | some oxs, some oys, some dh, some fl, some dec, some loc =>
+        build oxs oys dh fl dec (arrays == "1") loc
+      | _, _, _, _, _, _ => "bad-op")
   | ["c01_masked", oxs, oys, dh, cont, decx, decy, decdh] => some (
       match parseList? parseRat? oxs, parseList? parseRat? oys, parseRat? dh, parseList? parseNat? cont,
-            decx.toNat?, decy.toNat?, decdh.toNat? with
-      | some oxs, some oys, some dh, some cont, some dx, some dy, some dd => masked oxs oys dh (cont.map (· == 1)) (dx, dy, dd)
-      | _, _, _, _, _, _, _ => "bad-op")
+            parseDecs? decx decy decdh with
+      | some oxs, some oys, some dh, some cont, some dec => masked oxs oys dh (cont.map (· == 1)) dec
+      | _, _, _, _, _ => "bad-op")
+  -- `c01_lookup <oxs> <oys> <dh | none:auto> <flags> <lons> <lats>` → `<xs> <ys> <allowed>`: END TO END — the region is built by the
+  -- model from the origins alone (`ReprDec.fromOriginsAuto`: decimals, edge arrays, midpoint hash, mask loop), then every point gets
+  -- the set of answers the property allows on THAT region (`Region.allowed`); nothing but the origins comes from the harness
+  | ["c01_lookup", oxs, oys, dh, fl, lons, lats] => some (
+      match parseList? parseRat? oxs, parseList? parseRat? oys, parseDh? dh, parseFlags? fl,
+            parseList? parseRat? lons, parseList? parseRat? lats with
+      | some oxs, some oys, some dh, some fl, some lons, some lats =>
+        let origins := oxs.zip oys
+        let dhv := match dh with
+          | .inl d => d
+          | .inr [] => ReprDec.inferDhAuto origins
+          | .inr r => inferDh (r.getD 0 0, r.getD 1 0) (r.getD 2 0, r.getD 3 0)
+        let b := ReprDec.fromOriginsAuto origins dhv fl
+        let R := b.region
+        let pts := lons.zip lats
+        let allowed := if pts.isEmpty then "-" else
+          ";".intercalate (pts.map (fun p => "|".intercalate ((sortON (R.allowed p)).map showON)))
+        s!"{showList showRat b.xs} {showList showRat b.ys} {allowed}"
+      | _, _, _, _, _, _ => "bad-op")
+  -- `c01_global <dh>` → `<lons> <lats> <xs> <ys>`: the origin coordinates `global_region(dh)` takes the product of, and the region's edge arrays (no hash: 6.5·10^6 cells at 0.1)
+  | ["c01_global", dh] => some (match parseRat? dh with
+      | some dh =>
+        let lons := (ReprDec.cleanerRangeAuto (-180) 180 dh).dropLast
+        let lats := (ReprDec.cleanerRangeAuto (-90) 90 dh).dropLast
+        -- the region's own edge arrays: cleaner_range(min lon, max lon, dh) etc.
+        let xs := ReprDec.cleanerRangeAuto (Region.minL lons) (Region.maxL lons) dh
+        let ys := ReprDec.cleanerRangeAuto (Region.minL lats) (Region.maxL lats) dh
+        s!"{showList showRat lons} {showList showRat lats} {showList showRat xs} {showList showRat ys}"
+      | none => "bad-op")
   | ["c01_incres", oxs, oys, dh, factor] => some (
       match parseList? parseRat? oxs, parseList? parseRat? oys, parseRat? dh, parseRat? factor with
       | some oxs, some oys, some dh, some f => incres oxs oys dh f
